@@ -370,6 +370,8 @@ class Engine:
       return self.lift(self.consts[name])
     if name in ('True', 'False', 'None'):
       return {'True': sv.mk_bool(True), 'False': sv.mk_bool(False), 'None': sv.mk_none()}[name]
+    if self.spec and name in self.u.get('spec_calls', {}):
+      return Callable_('unit', unit=self.reg[self.u['spec_calls'][name]], self_=None)
     if self.spec and name in self.u.get('spec_funcs', {}):
       return Callable_('specfn', name=name)
     if name in self.reg:
@@ -406,6 +408,16 @@ class Engine:
     raise Unsupported('constant %r' % (c,))
 
   def e_Attribute(self, n, st):
+    dn = dotted_name(n)
+    if dn and dn in self.u.get('calls', {}):
+      return Callable_('unit', unit=self.reg[self.u['calls'][dn]], self_=None)
+    if dn and dn.startswith('self.') and dn.count('.') > 1 and 'self' not in self.bound:
+      if dn in st.env:
+        return st.env[dn]
+      t = self.declared(dn)
+      if t is not None:
+        st.env[dn] = sv.const(t, dn)
+        return st.env[dn]
     if isinstance(n.value, ast.Name) and n.value.id == 'self' and 'self' not in self.bound:
       key = 'self.' + n.attr
       if key in st.env:
@@ -644,7 +656,7 @@ class Engine:
       elif isinstance(p, ast.FormattedValue):
         if p.format_spec is not None or p.conversion != -1:
           raise Unsupported('f-string format spec')
-        parts.append(to_str(self.ev(p.value, st)))
+        parts.append(to_str(self.unwrap(self.ev(p.value, st), st, p.value, 'formatted value')))
     return sv.mk_str(concat(parts))
 
   def e_Compare(self, n, st):
@@ -1108,7 +1120,8 @@ class Engine:
       if name == 'format':
         if not isinstance(callee.node, ast.Constant):
           raise Unsupported('format on non-constant template')
-        kw = {k_.arg: self.ev(k_.value, st) for k_ in n.keywords}
+        kw = {k_.arg: self.unwrap(self.ev(k_.value, st), st, n, 'format argument') for k_ in n.keywords}
+        args = [self.unwrap(a, st, n, 'format argument') for a in args]
         return self.format_braces(callee.node.value, args, kw)
     if k == 'dict':
       if name == 'get':
@@ -1305,6 +1318,9 @@ class Engine:
       new = list_append(tgt, coerce(args[0], tgt.t.args[0]))
     elif k == 'list' and name == 'extend':
       new = list_concat(tgt, coerce(args[0], tgt.t))
+    elif k == 'list' and name == 'pop' and not args:
+      self.emit(st, 'safe-pop', sv.l_len(tgt) > 0, c, 'pop from non-empty list')
+      new = sv.mk_list(tgt.t, sv.l_arr(tgt), sv.l_len(tgt) - 1)
     elif k == 'set' and name == 'add':
       new = V(tgt.t, z3.Store(tgt.z, coerce(args[0], tgt.t.args[0]).z, True))
     else:
@@ -1315,8 +1331,8 @@ class Engine:
   def lvalue_type(self, node):
     if isinstance(node, ast.Name):
       return self.declared(node.id)
-    if isinstance(node, ast.Attribute) and isinstance(node.value, ast.Name) and node.value.id == 'self':
-      return self.declared('self.' + node.attr)
+    if isinstance(node, ast.Attribute) and (dotted_name(node) or '').startswith('self.'):
+      return self.declared(dotted_name(node))
     return None
 
   def assign(self, target, val, st):
@@ -1326,11 +1342,17 @@ class Engine:
           isinstance(val, V) and st.env[target.id].t != val.t and st.env[target.id].meta != 'empty':
         t = st.env[target.id].t
       if t is not None and isinstance(val, V):
-        val = coerce(val, t)
+        try:
+          val = coerce(val, t)
+        except Unsupported:
+          if self.declared(target.id) is not None:
+            raise
+          # undeclared local re-bound to a value of another type: paths are never merged, so the
+          # name simply takes the new type on this path
       st.env[target.id] = val
       return
-    if isinstance(target, ast.Attribute) and isinstance(target.value, ast.Name) and target.value.id == 'self':
-      key = 'self.' + target.attr
+    if isinstance(target, ast.Attribute) and (dotted_name(target) or '').startswith('self.'):
+      key = dotted_name(target)
       t = self.declared(key)
       if t is None:
         raise Unsupported('assignment to undeclared field %s' % key)
@@ -1514,6 +1536,9 @@ class Engine:
             r = root_name(n.func.value)
             if r:
               names.add(r)
+          dn_ = dotted_name(n.func)
+          if dn_ and dn_ in self.u.get('calls', {}):
+            names.update(self.reg[self.u['calls'][dn_]].get('modifies', []))
           # calls of contracted methods: their modifies
           if isinstance(n.func.value, ast.Name) and n.func.value.id == 'self':
             cls = self.u.get('cls')
@@ -1704,6 +1729,10 @@ class Engine:
       t = self.declared(p)
       if t is None:
         raise Unsupported('no type for parameter %s' % p)
+      if t.kind == 'rec':
+        fs = self.u['records'][t.args[0]]
+        st.env[p] = RecV(t.args[0], {f: sv.const(self.ty(ft), '%s.%s' % (p, f)) for f, ft in fs.items()})
+        continue
       st.env[p] = sv.const(t, p)
       self.wf(st, st.env[p])
     for key, ts in u.get('fields', {}).items():
@@ -1823,8 +1852,9 @@ def root_name(n):
     if isinstance(n, ast.Name):
       return n.id
     if isinstance(n, ast.Attribute):
-      if isinstance(n.value, ast.Name) and n.value.id == 'self':
-        return 'self.' + n.attr
+      dn = dotted_name(n)
+      if dn and dn.startswith('self.'):
+        return dn
       n = n.value
     elif isinstance(n, ast.Subscript):
       n = n.value
